@@ -1037,3 +1037,120 @@ M("C18-has-retained-compares-offset", "C18", [(OUT, '''    pub(super) fn has_ret
             .any(|entry| entry.packet_id >= packet_id)
     }''')],
   ["C18/status/lookup/has_retained"])
+
+# ---------------------------------------------------------------------------------------------- C17
+M("C17-scratch-without-compact", "C17", [(OUT, '''    pub(super) fn scratch_space(&mut self) -> &mut [u8] {
+        self.compact();
+        &mut self.buf[self.used..]
+    }''', '''    pub(super) fn scratch_space(&mut self) -> &mut [u8] {
+        let start = self.used_after_compact();
+        &mut self.buf[start..]
+    }''')],
+  ["C17/base/scratch_space"])
+M("C17-encode-at-compacted-size", "C17", [(OUT, '''        self.compact();
+        let start = self.used;
+        let (offset, packet) = MqttSerializer::encode_with_offset(&mut self.buf[start..], packet)?;''', '''        let start = self.used_after_compact();
+        let (offset, packet) = MqttSerializer::encode_with_offset(&mut self.buf[start..], packet)?;''')],
+  ["C17/base/encode_packet"])
+M("C17-dup-patch-at-wrong-byte", "C17", [(OUT, '''            self.buf[entry.offset] |= 1 << 3;''', '''            self.buf[entry.offset + entry.len - 1] |= 1 << 3;''')],
+  ["C17/patch/shape"])
+M("C17-compact-copies-len-minus-one", "C17", [(OUT, '''                    .copy_within(entry.offset..entry.offset + entry.len, cursor);''', '''                    .copy_within(entry.offset..entry.offset + entry.len - 1, cursor);''')],
+  ["C17/compact/copy"])
+M("C17-compact-forgets-offset", "C17", [(OUT, '''                entry.offset = cursor;
+                moved += 1;''', '''                moved += 1;''')],
+  ["C17/compact/bookkeeping"])
+M("C17-retain-wrong-offset", "C17", [(OPS, '''            .retain_packet(packet_id, offset, len)?;
+        debug!(
+            "Enqueued UNSUBSCRIBE''', '''            .retain_packet(packet_id, offset.saturating_sub(1), len)?;
+        debug!(
+            "Enqueued UNSUBSCRIBE''')],
+  ["C17/wire/unsubscribe/offset-len"])
+M("C17-used-not-raised", "C17", [(OUT, '''        self.used = self.used.max(offset + len);
+        Ok(())''', '''        self.used = offset + len - 1;
+        Ok(())''')],
+  ["C17/used/writer/retain_packet"])
+M("C17-encoder-relative-offset", "C17", [(OUT, '''        let (offset, packet) = MqttSerializer::encode_with_offset(&mut self.buf[start..], packet)?;
+        Ok((start + offset, packet.len()))''', '''        let (offset, packet) = MqttSerializer::encode_with_offset(&mut self.buf[start..], packet)?;
+        Ok((offset, packet.len()))''')],
+  ["C17/wire/encoder/encode_packet"])
+M("C17-clear-keeps-used", "C17", [(OUT, '''    pub(super) fn clear(&mut self) {
+        self.used = 0;''', '''    pub(super) fn clear(&mut self) {''')],
+  ["C17/used/writer/FLOOR"])
+M("C17-scratch-len-uses-watermark", "C17", [(OUT, '''        self.buf.len().saturating_sub(self.used_after_compact())''', '''        self.buf.len().saturating_sub(self.used)''')],
+  ["C17/used/free-space/scratch_len"])
+M("C17-retained-slice-short", "C17", [(OUT, '''        &self.buf[offset..offset + len]''', '''        &self.buf[offset..offset + len - 1]''')],
+  ["C17/wire/retained-slice"])
+M("C17-compact-reverse", "C17", [(OUT, '''        for entry in self.retained.iter_mut() {
+            if entry.offset != cursor {''', '''        for entry in self.retained.iter_mut().rev() {
+            if entry.offset != cursor {''')],
+  ["C17/compact/in-order"])
+
+# ---------------------------------------------------------------------------------------------- C10
+M("C10-ping-suppressed-while-inflight", "C10", [(DRIVE, '''            && !self.session.data.outbound.has_pending_pingreq()
+    }''', '''            && self.session.data.outbound.is_quiescent()
+    }''')],
+  ["C10/due/depends-only-on-keepalive-state"])
+M("C10-timeout-armed-for-every-control", "C10", [(DRIVE, '''        if matches!(packet, FlushedPacket::Control(ControlAction::PingReq)) {''', '''        if matches!(packet, FlushedPacket::Control(_)) {''')],
+  ["C10/who/ping-timeout-armed/only-for-pingreq"])
+M("C10-qos0-does-not-refresh", "C10", [(OPS, '''        self.session.runtime.note_outbound_activity(Instant::now());
+
+        Ok(None)''', '''        Ok(None)''')],
+  ["C10/refresh/publish"])
+M("C10-expiry-checked-after-step", "C10", [(DRIVE, '''        let runtime = &mut self.session.runtime;
+        if runtime
+            .ping_timeout
+            .map(|deadline| now >= deadline)
+            .unwrap_or(false)
+        {''', '''        let advanced = self.service_outbound_once(now).await?;
+        let runtime = &mut self.session.runtime;
+        if runtime
+            .ping_timeout
+            .map(|deadline| now >= deadline)
+            .unwrap_or(false)
+        {'''), (DRIVE, '''            return Err(Error::Disconnected);
+        }
+        self.service_outbound_once(now).await
+    }''', '''            return Err(Error::Disconnected);
+        }
+        Ok(advanced)
+    }''')],
+  ["C10/check/expiry-first"])
+M("C10-next-deadline-prefers-ping", "C10", [(STATE, '''            (Some(next_ping), Some(ping_timeout)) => Some(next_ping.min(ping_timeout)),''', '''            (Some(next_ping), Some(_)) => Some(next_ping),''')],
+  ["C10/race/next-deadline-table"])
+M("C10-inbound-publish-clears-timeout", "C10", [(INB, '''                match info.qos {
+                    QoS::AtMostOnce => {}''', '''                match info.qos {
+                    QoS::AtMostOnce => {
+                        runtime.ping_timeout = None;
+                    }''')],
+  ["C10/who/ping-timeout-cleared/handle_packet"])
+M("C10-pingresp-clears-only-if-due", "C10", [(INB, '''                trace!("Received PINGRESP");
+                runtime.ping_timeout = None;''', '''                trace!("Received PINGRESP");
+                if runtime.next_ping.is_some() {
+                    runtime.ping_timeout = None;
+                }''')],
+  ["C10/who/pingresp-clears"])
+M("C10-read-not-raced", "C10", [(DRIVE, '''                Some(deadline) => match with_deadline(deadline, read).await {
+                    Ok(Ok(())) => {}
+                    Ok(Err(err)) => return Err(err),
+                    Err(_) => continue,
+                },
+                None => read.await?,''', '''                Some(deadline) if self_has_ping(deadline) => match with_deadline(deadline, read).await {
+                    Ok(Ok(())) => {}
+                    Ok(Err(err)) => return Err(err),
+                    Err(_) => continue,
+                },
+                _ => read.await?,'''), (DRIVE, '''async fn write_current<C: Io>(''', '''fn self_has_ping(deadline: Instant) -> bool {
+    deadline.as_millis() % 2 == 0
+}
+
+async fn write_current<C: Io>(''')],
+  ["C10/race/unbounded-only-without-deadline"])
+M("C10-zero-keepalive-pings", "C10", [(STATE, '''        if keepalive_ms == 0 {
+            return None;
+        }
+''', '''''')],
+  ["C10/const/zero-disables"])
+M("C10-server-keepalive-ignored", "C10", [(HS, '''        self.runtime.keepalive_interval = keepalive_interval;''', '''        let _ = keepalive_interval;''')],
+  ["C10/const/server-keepalive"])
+M("C10-timeout-from-different-constant", "C10", [(DRIVE, '''            runtime.ping_timeout = Some(now + Duration::from_millis(ROUND_TRIP_TIMEOUT_MS));''', '''            runtime.ping_timeout = Some(now + Duration::from_millis(2 * ROUND_TRIP_TIMEOUT_MS));''')],
+  ["C10/who/ping-timeout-armed/complete_flush"])
